@@ -41,6 +41,18 @@ use std::io::{self, Read, Write};
 
 use serde::{de, ser};
 
+/// Bumps a verification path counter (no-op without the `verif` feature).
+#[cfg(feature = "verif")]
+macro_rules! vhit {
+	($name:ident) => {
+		$crate::verif::hit($crate::verif::Counter::$name)
+	};
+}
+#[cfg(not(feature = "verif"))]
+macro_rules! vhit {
+	($name:ident) => {};
+}
+
 mod detect;
 mod error;
 mod input;
@@ -49,6 +61,9 @@ mod msgpack;
 mod toml;
 mod transcode;
 mod yaml;
+
+#[cfg(feature = "verif")]
+pub mod verif;
 
 pub use error::{Error, Result};
 
